@@ -17,7 +17,7 @@ CFG = dict(
          "Non-trivial = at least one run was completed with external triggers in its file; distinct by input line.",
     nontrivial=["ext"],
     jobs=seeds(2, 6),
-    lean_files=["C20", "C06"],
+    lean_files=["C20", "C06", "ComposeRunLog"],
     trusted_base=["the ticker-driven flushes and the bufio layer do not change what a file contains once it is closed (flush abstracted)",
                   "time stamps written by the code itself (time.Now()) are only checked to lie inside the case's wall-clock window; caller-supplied time stamps are compared exactly",
                   "request strings and labels are byte strings; the WriteControl dispatch is the C06 model's classify (ASCII)"],
@@ -52,4 +52,5 @@ THEOREMS = [
     ("DastardV.Props.C20", "DastardV.C20.C20_fresh_after_restart"),
     ("DastardV.Props.C20", "DastardV.C20.C20_closed_files_frozen"),
     ("DastardV.Props.C20", "DastardV.C20.C20_label_own_stamp"),
+    ("DastardV.Lemmas.ComposeRunLog", "DastardV.Compose.lancero_ext_triggers_to_file"),
 ]
